@@ -205,7 +205,7 @@ META['C14'] = {
             'variable set to it, as a loop body, and ends early only at a break (or a failure under set -e); run_lines runs every top-level node outside any loop, and a text the grammar rejects is diagnosed and nothing of it runs.',
     'note': 'which tree a script text HAS -- the pest grammar (grammar.pest, macro-generated parser, pest::iterators::Pair) -- is outside the verifier: nesting, the spellings of the keywords, and that unbalanced '
             'keywords are rejected (repair fb11690: the top-level rule must reach the end of the text) are decided by the bounded stand-in only (fixed cases per clause, 12 unbalanced scripts, generated '
-            'nested programs against a reference interpreter of the structured semantics, through the real binary); get_for_var_name / get_for_result_list (the words of a for head) are external; run_exp_while may not terminate (a script loop); '
+            'nested programs against a reference interpreter of the structured semantics, through the real binary); get_for_var_name / get_for_result_list / get_for_result_from_init are under contract too (the variable is the first var node of the first init child; the list is made of the expanded test children in order, an unquoted token gives its blank-separated words, a quoted token is one word; str::split_whitespace itself uninterpreted); run_exp_while may not terminate (a script loop); '
             'the test child of a head is its first child (assumed, grammar).',
 }
 
